@@ -147,9 +147,16 @@ class World:
 
     OVERRIDES = ['props-readonly', 'props-dt', 'datatype', 'bare', 'none', 'inherit-false', 'method-over-command']
 
+    def described(self, dt, prop):
+        """value of a datatype property in python-side units (an array forwards the properties it does not have to its member type)"""
+        if isinstance(dt, self.D.ArrayOf) and prop not in ('maxlen', 'minlen'):
+            dt = dt.members
+        return getattr(dt, prop, None)
+
     def new_sub(self, label, bases, plist, hascmd):
         rng, C = self.rng, self.C
         self.uid += 1
+        self.last_overrides = []      # (parameter, datatype property, value) overridden by property-only declarations
         ns = {'__module__': __name__}
         kinds = []
         for name, kind in plist:
@@ -160,11 +167,14 @@ class World:
             if ov == 'props-readonly':
                 ns[name] = C.Parameter(readonly=rng.random() < 0.5)
             elif ov == 'props-dt':
-                prop = {'double': ('max', 5.0), 'int': ('max', 5), 'scaled': ('unit', 'V'), 'string': ('maxchars', 3), 'array': ('maxlen', 2)}.get(kind)
+                prop = {'double': ('max', 5.0), 'int': ('max', 5), 'scaled': ('unit', 'V'), 'string': ('maxchars', 3),
+                        # an array forwards the properties it does not have itself to its member type
+                        'array': rng.choice([('maxlen', 2), ('max', 5.0), ('min', -1.0), ('unit', 'V')])}.get(kind)
                 if prop is None:
                     ns[name] = C.Parameter(group='g')
                 else:
                     ns[name] = C.Parameter(**{prop[0]: prop[1]})
+                    self.last_overrides.append((name, prop[0], prop[1]))
             elif ov == 'datatype':
                 k2, dt, dflt = self.leaf_dt()
                 ns[name] = C.Parameter('redefined', dt, default=dflt)
@@ -249,6 +259,8 @@ class World:
                 cfg[name] = rng.choice([{'max': 4}, {'value': 1}])
             elif isinstance(dt, self.D.StringType):
                 cfg[name] = {'maxchars': 2}
+            elif isinstance(dt, self.D.ArrayOf) and isinstance(dt.members, self.D.FloatRange) and dt.members.max >= 5:
+                cfg[name] = rng.choice([{'max': 4.0}, {'unit': 'mK'}, {'maxlen': max(dt.maxlen, 1)}])   # forwarded to the member type
         if rng.random() < 0.4:
             cfg['group'] = rng.choice(['g1', 'g2'])          # module properties
         if rng.random() < 0.3:
@@ -397,6 +409,18 @@ class World:
                         return
                     continue
                 classes[lab] = cls
+                # an override of a datatype property is in force in the new class (whatever was defined before)
+                for name, prop, value in self.last_overrides:
+                    acc = cls.accessibles.get(name)
+                    # (not judged when an ancestor had removed the parameter with a None override: what a property-only
+                    # declaration means then is not defined anywhere)
+                    if acc is not None and name in cls.__dict__ and not any(b.__dict__.get(name, 0) is None for b in cls.__mro__):
+                        r.count('class_level_overrides_checked')
+                        got = self.described(acc.datatype, prop)
+                        if got != value:
+                            r.violation(f'C09/override-not-applied/class/{prop}', f'{lab}.{name}: Parameter({prop}={value!r}) declared, the class describes {prop}={got!r}',
+                                        {'program': log, 'prog_seed': getattr(self, 'cur_prog_seed', None)})
+                            return
                 if not frame(('subclass', lab), lab):
                     return
             elif q < 0.65:
@@ -421,6 +445,16 @@ class World:
                     continue
                 insts[ilab] = m
                 log.append(['instantiate', ilab, clab, cfg])
+                for name, c_ in cfg.items():
+                    if isinstance(c_, dict) and name in m.parameters:
+                        for prop, value in c_.items():
+                            if prop in ('max', 'min', 'unit', 'maxchars', 'maxlen'):
+                                r.count('configured_overrides_checked')
+                                got = self.described(m.parameters[name].datatype, prop)
+                                if got != value:
+                                    r.violation(f'C09/override-not-applied/configuration/{prop}', f'{ilab}.{name}: configured {prop}={value!r}, the instance describes {prop}={got!r}',
+                                                {'program': log})
+                                    return
                 kinds_used.add('cfg' if cfg else 'plain-instance')
                 if not frame(('instantiate', ilab), ilab):
                     return
